@@ -81,12 +81,28 @@ Section GatewayProofs.
   (* the Gateway codec: encode = Labels.to_json of the kept labels, decode = Labels.from_json then Gateway() *)
   Theorem gw_roundtrip g : cls_ok V cls_Labels = true -> wf_obj V cls_Labels g = true ->
     nothing_kept cls_Labels g = false -> gw_make V (Some g) = Ok (Some g) ->
-    gw_from_json V (gw_to_json (Some g)) = Ok (Some g).
+    gw_from_json V (gw_to_json (Some g)) = Ok (Some (Some g)).
   Proof.
     intros C W K I. unfold gw_from_json, gw_to_json.
-    rewrite (field_roundtrip V cls_Labels g C W). rewrite K. cbn [andb]. exact I.
+    rewrite (field_roundtrip V cls_Labels g C W). rewrite K. cbn [andb]. rewrite I. reflexivity.
   Qed.
 
-  Theorem gw_none_roundtrip : gw_to_json None = None /\ gw_from_json V None = Ok None.
-  Proof. split; reflexivity. Qed.
+  (* nothing recorded reads back as ABSENT (not as an empty Gateway object): for the None that Gateway(None).to_json()
+     returns, for the empty text, and for every text the Labels decoder treats as absent *)
+  Theorem gw_none_roundtrip : gw_to_json None = None /\ gw_from_json V None = Ok None /\ gw_from_json V (Some []) = Ok None.
+  Proof. repeat split; reflexivity. Qed.
+
+  Theorem gw_absent_labels_absent_gateway t : from_json V cls_Labels t = Ok None -> gw_from_json V t = Ok None.
+  Proof. intro H. unfold gw_from_json. rewrite H. reflexivity. Qed.
+
+  (* the decoder never yields an empty Gateway object *)
+  Theorem gw_decoded_has_labels t g : gw_from_json V t = Ok (Some g) -> g <> None.
+  Proof.
+    unfold gw_from_json. destruct (from_json V cls_Labels t) as [[l|]|]; try discriminate.
+    rewrite (gw_make_unfold l).
+    destruct (negb (is_null (fld k_v4s l)) && negb (is_null (fld k_v4 l))).
+    - destruct (two_of k_v4s k_v4 l); [|discriminate]. intros [= <-]. discriminate.
+    - destruct (negb (is_null (fld k_v6s l)) && negb (is_null (fld k_v6 l))); [|discriminate].
+      destruct (two_of k_v6s k_v6 l); [|discriminate]. intros [= <-]. discriminate.
+  Qed.
 End GatewayProofs.
